@@ -355,3 +355,32 @@ class TimingModel:
             self.env["sg"] = self.init["sg"]
         return {"seen": seen, "prints": prints, "fails": fails, "edges": edges, "unconstrained": unconstrained,
                 "rst_rise": rst_rise, "rst_event": rst_event, "pre": pre, "hypo": hypo}
+
+
+# ----------------------------------------------------------------------------------------------- Print arguments
+def render_print_arg(arg, vals):
+    """the str Python's print() would be given for one argument; vals = (a, b, c) plain ints in their own shape"""
+    a, b, c = vals
+    kind, what = arg
+    if kind == "v":
+        return str({"a": a, "b": b, "c": c, "amb": a - b}[what])
+    if kind == "f":
+        if what == "hex":
+            return format(a, "02x")
+        if what == "brace":
+            return "b=" + str(b) + "|{}"
+        raise ValueError(what)
+    return str(what)
+
+
+def expected_print(args, sep, end, vals):
+    """exactly what Python's print(*rendered, sep=sep, end=end) writes"""
+    import io
+    buf = io.StringIO()
+    kw = {}
+    if sep is not None:
+        kw["sep"] = sep
+    if end is not None:
+        kw["end"] = end
+    print(*[render_print_arg(a, vals) for a in args], file=buf, **kw)
+    return buf.getvalue()
